@@ -5,6 +5,7 @@ import (
 	"fmt"
 	"math/rand"
 	"runtime"
+	"sort"
 	"strings"
 	"time"
 
@@ -36,12 +37,12 @@ func c13T(sec int) time.Time { return c13Base.Add(time.Duration(sec) * time.Seco
 
 // timer definition: kind 0 = date(due), 1 = duration(due relative to creation), 2 = cycle
 type c13Def struct {
-	kind             int
-	due              int // kind 0/1: absolute seconds
-	start, iv, end   int // cycle; start < 0: none (=creation time); end < 0: none
-	reps             int // -1 unbounded
-	now0             int
-	endAsStartEnd    bool // form R/start/end (interval = end-start)
+	kind           int
+	due            int // kind 0/1: absolute seconds
+	start, iv, end int // cycle; start < 0: none (=creation time); end < 0: none
+	reps           int // -1 unbounded
+	now0           int
+	endAsStartEnd  bool // form R/start/end (interval = end-start)
 }
 
 func (d c13Def) expr() (schema.TimerEventDefinition, string) {
@@ -621,6 +622,86 @@ func runC13(env *Env) {
 		}
 	}
 	c13Process(rep)
+	// several timers pending on one mock clock, due times near and far (up to the year 9999: a common "never" bound),
+	// registered in any order: every setting of the clock serves exactly the timers whose due time has been reached
+	var citems []string
+	nClock := 60
+	if env.Thorough() {
+		nClock = 600
+	}
+	far := []int{7258118400 - 1, 9224318016, 10413792000, 253402300799} // 2199-12-31, 2262-04-12 (past the int64 nanosecond range), 2300-01-01, 9999-12-31 in Unix seconds
+	for i := 0; i < nClock && !rep.Saturated(); i++ {
+		n := 2 + rng.Intn(4)
+		dues := make([]int, n)
+		for j := range dues {
+			if rng.Intn(3) == 0 {
+				dues[j] = far[rng.Intn(len(far))]
+			} else {
+				dues[j] = 10 + 10*rng.Intn(12)
+			}
+		}
+		var Ts []int
+		now := 0
+		for k := 0; k < 2+rng.Intn(4); k++ {
+			switch rng.Intn(6) {
+			case 0:
+				now = far[rng.Intn(len(far))] + rng.Intn(3) - 1
+			default:
+				now += 5 * (1 + rng.Intn(8))
+			}
+			Ts = append(Ts, now)
+		}
+		sort.Ints(Ts)
+		cs := fmt.Sprintf("mock clock with timers due at %v s (registered in this order), set to %v s", dues, Ts)
+		env.Current(cs)
+		mock := clock.NewMockAt(time.Unix(0, 0))
+		chans := make([]<-chan time.Time, n)
+		for j, d := range dues {
+			chans[j] = mock.Until(time.Unix(int64(d), 0))
+		}
+		served := make([]bool, n)
+		var obs []string
+		bad := ""
+		for _, T := range Ts {
+			mock.Set(time.Unix(int64(T), 0))
+			var now []int
+			for j := range chans {
+				select {
+				case <-chans[j]:
+					if served[j] {
+						bad = fmt.Sprintf("timer %d served twice", j)
+					}
+					served[j] = true
+					now = append(now, j)
+					if dues[j] > T {
+						bad = fmt.Sprintf("timer %d (due at %d s) served when the clock was set to %d s", j, dues[j], T)
+					}
+				default:
+				}
+			}
+			for j := range chans {
+				if !served[j] && dues[j] <= T {
+					bad = fmt.Sprintf("timer %d (due at %d s) not served when the clock was set to %d s", j, dues[j], T)
+				}
+			}
+			obs = append(obs, natList(now))
+		}
+		rep.Evaluations++
+		rep.Nontrivial++
+		rep.Count("clock_several_timers")
+		if bad != "" {
+			rep.Violate("C13-clock", cs, bad)
+		}
+		zl := func(l []int) string {
+			var x []string
+			for _, v := range l {
+				x = append(x, fmt.Sprint(v))
+			}
+			return "[" + strings.Join(x, ";") + "]"
+		}
+		citems = append(citems, fmt.Sprintf("(%s,%s,[%s])", zl(dues), zl(Ts), strings.Join(obs, ";")))
+	}
+	env.WriteCases(rep, "_clock", "Corr.C13corr", "list Z * list Z * list (list Z)", citems, "c13_clock_mismatches", "Open Scope Z_scope.")
 	env.WriteCases(rep, "", "Corr.C13corr", "(Z * tstate) * list op * list Z", items, "c13_mismatches", "Open Scope Z_scope.")
 	env.WriteReport(rep)
 }
